@@ -195,6 +195,11 @@ func needleCensus(c *core.Ctx, rule string, scope []*ssa.Function) int {
 			}
 			ev := &an.SeqEval{}
 			needle := ev.Eval(call.Call.Args[ni]).Norm()
+			if strings.HasSuffix(cal.Name(), "Byte") {
+				if k, ok := an.ConstInt(call.Call.Args[ni]); ok {
+					needle = an.Seq{{Bytes: []byte{byte(k)}}}
+				}
+			}
 			hay := an.Render(call.Call.Args[0])
 			shape := needle.String()
 			parts := splitConst(needle)
@@ -266,7 +271,7 @@ func needleCensus(c *core.Ctx, rule string, scope []*ssa.Function) int {
 					ob.Fail("the end-of-message tag is matched with %s on %s: only a comparison with the start of the segment read up to the last delimiter recognises tag 10 at a field boundary (110=…, or a value containing 10=, would end the message early)", name, hay)
 				}
 			case shape == "'␁'":
-				c.Check(cal.Name() == "Index", rule, fn.Name(), key, call.Pos(), "next delimiter", "the delimiter is located with "+name+": a value ends at the first delimiter after it")
+				c.Check(cal.Name() == "Index" || cal.Name() == "IndexByte", rule, fn.Name(), key, call.Pos(), "next delimiter", "the delimiter is located with "+name+": a value ends at the first delimiter after it")
 			default:
 				// data-derived or constant needles: the group separator and the '=' search are checked below
 				if cal.Name() == "Index" && (shape == "'='" || (fn.Name() == "splitGroup" && call.Call.Args[ni] == ssa.Value(fn.Params[1]))) {
